@@ -3,8 +3,10 @@ From GT Require Import Visitor Validate Merge.
 From GTS Require Import Annot WfSchema SpecRules SpecMerge SpecValid.
 From GTP Require Import C05_proofs.
 
-(* The full statement (kept visible; NOT proved: correctness of the memoised pairwise search with
-   named fragments): *)
+(* The full statement as first written (kept visible).  It is FALSE: C05_statement_refuted below;
+   C05_acyclic_partial is the statement with the two hypotheses it needs (distinct field positions,
+   which every parsed document has, and known inline type conditions, outside which the
+   specification's algorithm is not defined). *)
 Definition C05_statement : Prop := forall s d,
   wf_schema s = true -> rule_in_scope R_OverlappingFieldsCanBeMerged s d = true ->
   (run_alone R_OverlappingFieldsCanBeMerged s d <> [] <-> violated R_OverlappingFieldsCanBeMerged s d = true).
@@ -40,3 +42,67 @@ Theorem C05_spreadfree_partial : forall s d,
   (run_alone R_OverlappingFieldsCanBeMerged s d <> [] <-> violated R_OverlappingFieldsCanBeMerged s d = true).
 Proof. exact merge_spreadfree_iff. Qed.
 Print Assumptions C05_spreadfree_partial.
+
+(* ---- additions to properties/C05.v (append to the file; the Require line may also be moved to the top) ---- *)
+From GTP Require Import C05_frag_proofs.
+
+(* The rule on documents WITH named fragment spreads of any nesting (inline fragments included):
+   it reports a conflict exactly when FieldsInSetCanMerge fails for the collected set (fragments
+   expanded) of some selection set.  With respect to C05_statement, two hypotheses are added:
+   - the field nodes have pairwise distinct positions (the parser gives every node its own position;
+     the rule identifies field nodes by address; same hypothesis as C05_spreadfree_partial);
+   - every inline type condition names a type of the schema: without it C05_statement is FALSE,
+     see C05_statement_refuted below. *)
+Theorem C05_acyclic_partial : forall s d,
+  wf_schema s = true -> rule_in_scope R_OverlappingFieldsCanBeMerged s d = true ->
+  NoDup (map node_pos (filter (fun x => match x with SField _ _ _ _ _ _ _ => true | _ => false end) (doc_selections d))) ->
+  inline_conditions_known s d = true ->
+  (run_alone R_OverlappingFieldsCanBeMerged s d <> [] <-> violated R_OverlappingFieldsCanBeMerged s d = true).
+Proof. exact merge_iff_acyclic. Qed.
+Print Assumptions C05_acyclic_partial.
+
+(* soundness alone needs neither extra hypothesis: every conflict the memoised search reports is a
+   violation of FieldsInSetCanMerge.  Missing w.r.t. C05_statement: the converse. *)
+Theorem C05_sound_partial : forall s d,
+  wf_schema s = true -> rule_in_scope R_OverlappingFieldsCanBeMerged s d = true ->
+  run_alone R_OverlappingFieldsCanBeMerged s d <> [] -> violated R_OverlappingFieldsCanBeMerged s d = true.
+Proof. exact merge_sound_acyclic. Qed.
+Print Assumptions C05_sound_partial.
+
+(* completeness, stated separately with the out-of-fuel flag as a hypothesis (it holds for every
+   memo content: the memo tables never hide a comparison whose outcome could differ); the flag is
+   false for every document by C03_merge_no_fuel_exhaustion *)
+Theorem C05_complete_no_oof_partial : forall s d,
+  wf_schema s = true -> rule_in_scope R_OverlappingFieldsCanBeMerged s d = true ->
+  NoDup (map node_pos (filter (fun x => match x with SField _ _ _ _ _ _ _ => true | _ => false end) (doc_selections d))) ->
+  inline_conditions_known s d = true ->
+  r_oof (snd (run_rule R_OverlappingFieldsCanBeMerged s d ctx0)) = false ->
+  violated R_OverlappingFieldsCanBeMerged s d = true -> run_alone R_OverlappingFieldsCanBeMerged s d <> [].
+Proof. exact merge_complete_no_oof. Qed.
+Print Assumptions C05_complete_no_oof_partial.
+
+(* the fuel [merge_fuel d] suffices on every document without fragment cycles, for every schema,
+   every starting context and every content of the memo tables (also wanted by C03: it discharges the
+   hypothesis of C03_terminates_partial on acyclic documents).  (For documents WITH fragment cycles see C03_merge_no_fuel_exhaustion: the constant of the model
+   was raised after a counterexample found while proving this.) *)
+Theorem C05_fuel_acyclic_partial : forall s d c,
+  v_no_fragment_cycles d = false -> r_oof (snd (run_rule R_OverlappingFieldsCanBeMerged s d c)) = false.
+Proof. exact merge_fuel_sufficient_acyclic. Qed.
+Print Assumptions C05_fuel_acyclic_partial.
+
+(* the side condition on inline type conditions, from KnownTypeNames *)
+Theorem C05_inline_conditions_known : forall s d,
+  violated R_KnownTypeNames s d = false ->
+  (forall n, In n (type_conditions d) -> mem_name n introspection_type_names = true -> type_by_name s n <> None) ->
+  inline_conditions_known s d = true.
+Proof. exact inline_conditions_known_of_known_types. Qed.
+Print Assumptions C05_inline_conditions_known.
+
+(* the full statement C05_statement is FALSE as stated: a closed counterexample (an inline fragment
+   on an unknown type inside a named fragment that is spread under two fields with the same
+   response key); wf_schema and rule_in_scope hold, the rule reports nothing, the specification
+   is violated *)
+Theorem C05_statement_refuted : ~ C05_statement.
+Proof. exact C05_statement_false. Qed.
+Print Assumptions C05_statement_refuted.
+
